@@ -544,6 +544,36 @@ func propC18(c *vs.Case, nSubs, nRes, length int) error {
 		}
 		for _, res := range c18Names(nRes) {
 			res := res
+			if len(w.handlersOn(res)) == 0 {
+				continue
+			}
+			ops = append(ops, op{"watch of " + res + " breaks, an object is deleted meanwhile", func() error {
+				name := fmt.Sprintf("gone%d", step)
+				w.sim.ExtCreate(res, map[string]any{"metadata": map[string]any{"name": name, "namespace": "ns1"}})
+				active := w.handlersOn(res)
+				for _, h := range active {
+					hh := h
+					if !poll(5*time.Second, func() bool { return hh.has(name, "") }) {
+						return vs.Violf("C18/event-not-delivered", "handler %s did not receive the creation of %s", hh.id, name)
+					}
+				}
+				// connections drop, the history is compacted, and the object disappears while nobody watches:
+				// the informers find out through a fresh list and must tell their handlers
+				w.sim.CompactHistory(res)
+				w.sim.ExpireWatches(res)
+				w.sim.ExtDelete(res, "ns1", name, "")
+				c.Class("deletion-found-by-relist")
+				for _, h := range active {
+					hh := h
+					if !poll(15*time.Second, func() bool { return hh.hasType("delete", name) }) {
+						return vs.Violf("C18/event-not-delivered", "the watch broke and %s was deleted meanwhile; handler %s was never told about the deletion", name, hh.id)
+					}
+				}
+				return nil
+			}})
+		}
+		for _, res := range c18Names(nRes) {
+			res := res
 			ops = append(ops, op{"outside create+delete in " + res, func() error {
 				name := fmt.Sprintf("tmp%d", step)
 				w.sim.ExtCreate(res, map[string]any{"metadata": map[string]any{"name": name, "namespace": "ns1"}})
